@@ -365,12 +365,19 @@ pub fn run_uper(ctx: &mut RunCtx<'_>, outcomes_only: bool) -> Option<Violation> 
     }
     if xtype && !plan.is_empty() {
         let j = ctx.ch.draw(0, plan.len() as u64) as usize;
-        let nt = types[ctx.ch.draw(0, types.len() as u64) as usize];
+        // half of the cross-type decodes of a version-chain type are VERSION skew: the receiver runs another
+        // version of the sender's schema (unknown additions to skip, additions missing), which a uniformly
+        // drawn other type practically never is
+        let same_role = crate::c05::chains().roles.iter().map(|(_, v)| v).find(|v| v.contains(&plan[j]));
+        let (nt, kind) = match same_role {
+            Some(vs) if ctx.ch.draw(0, 2) == 0 => (vs[ctx.ch.draw(0, vs.len() as u64) as usize], "W-XVERSION"),
+            _ => (types[ctx.ch.draw(0, types.len() as u64) as usize], "W-XTYPE"),
+        };
         if nt != plan[j] {
             let start = stream.prod.stream.get(j).map(|m| m.start).unwrap_or(0);
             first_affected = first_affected.min(start);
-            ctx.counters.inc("fault.W-XTYPE");
-            ctx.note(|| format!("W-XTYPE: message {j} decoded as {} instead of {}", z.types[nt].name, z.types[plan[j]].name));
+            ctx.counters.inc(if kind == "W-XVERSION" { "fault.W-XVERSION" } else { "fault.W-XTYPE" });
+            ctx.note(|| format!("{kind}: message {j} decoded as {} instead of {}", z.types[nt].name, z.types[plan[j]].name));
             plan[j] = nt;
         }
     }
